@@ -313,3 +313,37 @@ func c19Recursion(w *World, r *Report) {
 }
 
 var _ = types.Typ
+
+// c19NilCause (C19.7): errorchain's Error()/Is() walk the chain elements and dereference each
+// one; a cause that is nil on every path reaching the CausedBy call (an `err` left over from an
+// earlier, successful call) makes the resulting error crash whoever logs it - typically a
+// provider goroutine outside any recover.
+func c19NilCause(w *World, r *Report) {
+	ri := r.Rule("C19.7", 100, "no error chain is given a cause that is nil on every path reaching the call (a stale err from an earlier successful call): logging such an error dereferences nil")
+	for _, fn := range w.Funcs {
+		if w.isMockFn(fn) {
+			continue
+		}
+		n := 0
+		for _, ci := range callsIn(fn) {
+			c, ok := ci.(*ssa.Call)
+			if !ok || callName(c.Common()) != errorchainPkg+".ErrorChain.CausedBy" || len(c.Common().Args) < 2 {
+				continue
+			}
+			n++
+			cause := c.Common().Args[1]
+			bad := false
+			why := ""
+			if k, isConst := cause.(*ssa.Const); isConst && k.Value == nil {
+				bad, why = true, "the cause is the constant nil"
+			} else if _, isExtract := stripConv(cause).(*ssa.Extract); isExtract {
+				// definitely nil: the call is reachable only through edges on which this very value was found nil
+				if onlyVia(fn, c.Block(), func(f Fact) bool { return f.Kind == FNil && f.V == stripConv(cause) }) {
+					bad, why = true, "the cause is an error value that was found nil on every path leading here"
+				}
+			}
+			r.Ob(ri, fmt.Sprintf("%s|CausedBy#%d", w.FnName(fn), n), c.Pos(), !bad,
+				"CausedBy is called with nil ("+why+"): the chain gets a nil element, and Error()/Is() on it dereference nil - in a provider goroutine that logs the error this terminates the process")
+		}
+	}
+}
